@@ -10,7 +10,9 @@ RULE = (
     "with (acreage)/[acreage] | aliquot-of-lot(s) | aliquot chain in plain "
     "spellings | ALL} joined by one separator from {', ', '; ', ',\\n', "
     "';\\n', '\\n'} under configs {default, suppress_lot_divs, qq_depth.1, "
-    "qq_depth_min.3, clean_qq, qq_depth_min.1+max.2, break_halves}. Oracle: "
+    "qq_depth_min.3, clean_qq, qq_depth_min.1+max.2, break_halves}, the "
+    "settings handed over by config string, by parse() keywords, or by "
+    "keywords over a Tract config that says the opposite. Oracle: "
     "lots / qqs of the whole == concatenation of what each element yields "
     "alone (the library itself on the element; lots, lot ranges and lot "
     "divisions additionally against a direct model), lots_qqs == lots + qqs, "
@@ -20,7 +22,7 @@ RULE = (
     "the bare line breaks after aliquot chains replaced by ',\\n' "
     "(mechanism D20) and with the ALL elements removed (mechanism "
     "ALL-not-last) to key the known findings. Non-trivial: >= 2 elements of "
-    ">= 2 kinds. Distinct by (text, config)."
+    ">= 2 kinds. Distinct by (text, config, channel)."
 )
 ASSUMPTIONS = [
     "Aliquot chains use the plain spellings (slash, symbol, fraction); the "
@@ -29,7 +31,8 @@ ASSUMPTIONS = [
 ]
 MIN_NONTRIVIAL = {'quick': 15000, 'thorough': 350000}
 REQUIRED_MONITORS = ['boundary:whole', 'boundary:element', 'model:element',
-                     'dup-flag']
+                     'dup-flag', 'channel:config', 'channel:keyword',
+                     'channel:contrary-config']
 
 SEPS = [', ', '; ', ',\n', ';\n', '\n']
 CONFIGS = ['', '', 'suppress_lot_divs', 'qq_depth.1', 'qq_depth_min.3',
@@ -102,8 +105,36 @@ def gen_element(rng):
     return 'aliq', style_join.join(t for _, t in comps), None
 
 
+_BOOLS = ('clean_qq', 'suppress_lot_divs', 'break_halves')
+CHANNELS = ['config', 'config', 'config', 'keyword', 'contrary-config']
+_CHANNEL = ['config']       # channel of the case being judged
+
+
+def _keywords(cfg):
+    """The settings of a config string as Tract.parse() keywords, every
+    boolean given explicitly."""
+    kw = {b: False for b in _BOOLS}
+    for item in filter(None, cfg.split(',')):
+        name, _, val = item.partition('.')
+        kw[name] = int(val) if val else True
+    return kw
+
+
 def parse(pytrs, text, cfg):
-    t = pytrs.Tract(text, parse_qq=True, config=cfg or None)
+    """Parse `text` under the settings `cfg`, handed over through the
+    channel of the current case: the config string; keywords of parse(); or
+    keywords of parse() on a Tract whose own config says the opposite for
+    every boolean (an explicit keyword, False included, wins)."""
+    channel = _CHANNEL[0]
+    if channel == 'config':
+        t = pytrs.Tract(text, parse_qq=True, config=cfg or None)
+    else:
+        kw = _keywords(cfg)
+        own = None
+        if channel == 'contrary-config':
+            own = ','.join(f"{b}.{not kw[b]}" for b in _BOOLS)
+        t = pytrs.Tract(text, config=own)
+        t.parse(**kw)
     return {'lots': list(t.lots), 'qqs': list(t.qqs),
             'lots_qqs': list(t.lots_qqs), 'ilots': list(t.ilots),
             'acres': dict(t.lot_acres), 'w_flags': list(t.w_flags),
@@ -160,11 +191,16 @@ def compose_problem(pytrs, elements, sep, cfg, ctx=None):
 def check_case(case, ctx, pytrs):
     elements = [tuple(e) for e in case['elements']]
     sep, cfg = case['sep'], case['cfg']
+    channel = _CHANNEL[0] = case.get('channel', 'config')
     kinds = [k for k, _, _ in elements]
     text = sep.join(txt for _, txt, _ in elements)
-    ctx.case([text, cfg], len(elements) >= 2 and len(set(kinds)) >= 2,
-             shape=f"n={len(elements)}|sep={sep!r}|{cfg or 'default'}",
-             sample={'text': text, 'config': cfg, 'kinds': kinds})
+    ctx.case([text, cfg, channel],
+             len(elements) >= 2 and len(set(kinds)) >= 2,
+             shape=f"n={len(elements)}|sep={sep!r}|{cfg or 'default'}"
+                   f"|{channel}",
+             sample={'text': text, 'config': cfg, 'kinds': kinds,
+                     'channel': channel})
+    ctx.hit(f'channel:{channel}')
     with ctx.guard(case):
         # Direct model for single elements where it is trivial.
         for kind, txt, model in elements:
@@ -230,7 +266,8 @@ def gen_case(rng):
     n = rng.choice([1, 2, 2, 3, 3, 4, 5, 6])
     elements = [gen_element(rng) for _ in range(n)]
     return {'elements': [list(e) for e in elements],
-            'sep': rng.choice(SEPS), 'cfg': rng.choice(CONFIGS)}
+            'sep': rng.choice(SEPS), 'cfg': rng.choice(CONFIGS),
+            'channel': rng.choice(CHANNELS)}
 
 
 def run_shard(shard, ctx):
